@@ -414,41 +414,4 @@ def _differential(setup, ops, safe=False):
 
 
 def _stress_tail(u):
-    """A fixed sequence of edits applied after a history; returns what each step showed (exception class or ownership flags)."""
-    obs = []
-    graphs = list(u.graphs)[:4]
-    values = list(u.values)[:14]
-
-    def flags(v):
-        g = v.graph
-        return (v.is_graph_input(), v.is_graph_output(), v.is_initializer(), next((i for i, x in enumerate(u.graphs) if x is g), None), v.name)
-
-    for gi, g in enumerate(graphs):
-        for ci, coll in enumerate((g.inputs, g.outputs)):
-            for vi, v in enumerate(values):
-                step = f"g{gi}.{'inputs' if ci == 0 else 'outputs'}: append v{vi} twice, pop, remove"
-                try:
-                    coll.append(v)
-                    coll.append(v)
-                    coll.pop()
-                    mid = flags(v)
-                    coll.remove(v)
-                    obs.append((step, mid, flags(v), len(coll)))
-                except Exception as e:
-                    obs.append((step, type(e).__name__, flags(v), len(coll)))
-        for vi, v in enumerate(values):
-            step = f"g{gi}.initializers: register v{vi}, rename, unregister"
-            try:
-                had = v.name in g.initializers
-                g.register_initializer(v)
-                a = flags(v)
-                old = v.name
-                v.name = f"{old}_t"
-                b = (flags(v), sorted(k for k in g.initializers if k in (old, f"{old}_t")))
-                v.name = old
-                if not had:
-                    del g.initializers[old]
-                obs.append((step, a, b, flags(v)))
-            except Exception as e:
-                obs.append((step, type(e).__name__, flags(v)))
-    return obs
+    return U.stress_tail(u)
